@@ -352,7 +352,7 @@ def build():
     world.exc_parents["NameError"] = "Exception"
     world.exc_parents["RuntimeError"] = "Exception"
     A(Contract(f"{TM_}:get_field_types", variant_of="body", params={"type_": "NodeClassObj"}, returns="ODict[DField,Ty]", props=P,
-               locals={"ret": "ODict[DField,Ty]", "f_type": "Opt[Ty]"}, may_raise=["NameError"],
+               locals={"ret": "ODict[DField,Ty]"}, may_raise=["NameError"],
                requires=["raw_wf(dataclass_fields(type_))"],
                raises=[("RuntimeError", "some_field_unresolved(type_, dataclass_fields(type_))")],
                ensures=["result == resolved_types_map(type_, dataclass_fields(type_))", "keys_of(result) == resolved_types_keys(type_, dataclass_fields(type_))"],
